@@ -622,6 +622,13 @@ impl Board {
             return false;
         }
 
+        // the move list has one slot per man plus two: no more men than a chess set
+        if self.color_combined(Color::White).popcnt() > 16
+            || self.color_combined(Color::Black).popcnt() > 16
+        {
+            return false;
+        }
+
         // make sure the en_passant square has a pawn on it of the right color
         match self.en_passant {
             None => {}
